@@ -147,6 +147,8 @@ def _parse(res, out):
                     res.kind, res.name = "invariant", msg.split()[1]
                 elif msg.startswith("Action property "):
                     res.kind, res.name = "property", msg.split()[2]
+                elif msg.startswith("Temporal property "):
+                    res.kind, res.name = "property", msg.split()[2]
                 elif "Temporal properties were violated" in msg:
                     res.kind, res.name = "property", "temporal"
                 elif msg.startswith("Deadlock reached"):
